@@ -69,6 +69,7 @@ TReset == /\ IsEvent("Reset")
           /\ committed' = EmptyMap /\ stack' = <<>> /\ shadow' = <<>>
           /\ snap' = [r \in Readers |-> NoSnap]
           /\ mapSize' = MapInit /\ used' = 0 /\ pend' = 0
+          /\ resizing' = FALSE /\ parked' = "no"
           /\ act' = [k |-> "Reset"]
           /\ vers' = Vers0
 
